@@ -20,7 +20,9 @@ def _ref_natsort(ids):
     return sorted(ids, key=key)
 
 
-DECIMAL_IDS = ['s1.10', 's1.9', 's1.5', 's01.50']
+# ids whose natural order differs from text order in every way the key function distinguishes: integer vs decimal chunks,
+# different integer widths, leading/trailing text, bare numbers (no numeric ties: those are resolved by input order)
+DECIMAL_IDS = ['d2', 'd9.5', 'd10', 'd10.5', 'd1.10', 'd1.9', '3', '2.5x', 'x', 'd', '10', '9.75']
 
 
 def _state(nr, nc, zeros=0, light=False):
@@ -54,7 +56,10 @@ def h_sort_order(nr, nc, axis):
 def h_sort(nr, nc, axis, decimal_ids=False):
     if decimal_ids:
         n = nr if axis == 'observation' else nc
-        kw = {'obs_ids': DECIMAL_IDS[:n]} if axis == 'observation' else {'samp_ids': DECIMAL_IDS[:n]}
+        chosen, pool = [], list(DECIMAL_IDS)
+        for k in range(n):
+            chosen.append(pool.pop(choice(len(pool), f'id{k}')))
+        kw = {'obs_ids': chosen} if axis == 'observation' else {'samp_ids': chosen}
         t, a = make_table(nr, nc, md=pick(['none', 'both'], 'md'), type_='OTU table', unsorted=False, layouts=('csr',), **kw)
     else:
         t, a = _state(nr, nc)
